@@ -266,7 +266,15 @@ impl<'a, 'b: 'a, R: Read> RowParser<'a, 'b, R> {
             }
 
             let val = self.parser.parse_value()?;
-            dict.insert(cols[col_num].name.clone(), val);
+            match cols.get(col_num) {
+                Some(col) => dict.insert(col.name.clone(), val),
+                None => {
+                    return self
+                        .parser
+                        .lexer
+                        .make_generic_err("Zinc Grid parser: Row has more cells than columns.")
+                }
+            };
 
             self.parser.lexer.read()?;
         }
